@@ -165,6 +165,31 @@ func (e *Exec) eval(ctx *evalCtx, x Expr, want types.Type) Val {
 		return e.evalSlice(ctx, x)
 	case *ECall:
 		return e.evalCall(ctx, x, want)
+	case *EForall:
+		t := e.lookupType(x.Type)
+		if x.Type == "ghostint" {
+			t = ghostIntT
+		}
+		if t == nil {
+			fail("forall: unknown type %s", x.Type)
+		}
+		ls := shape(t)
+		if len(ls) != 1 {
+			fail("forall over composite type %s", x.Type)
+		}
+		bn := e.freshName("q:" + x.Var)
+		if ctx.scope == nil {
+			ctx.scope = map[string]Val{}
+		}
+		saved, had := ctx.scope[x.Var]
+		ctx.scope[x.Var] = Val{T: []string{bn}, Typ: t}
+		body := e.eval(ctx, x.Body, types.Typ[types.Bool])
+		if had {
+			ctx.scope[x.Var] = saved
+		} else {
+			delete(ctx.scope, x.Var)
+		}
+		return Val{T: []string{fmt.Sprintf("(forall ((%s %s)) %s)", bn, ls[0].Sort, body.T[0])}, Typ: types.Typ[types.Bool]}
 	case *EIs:
 		v := e.eval(ctx, x.X, nil)
 		if len(v.T) != 2 {
@@ -753,6 +778,37 @@ func (e *Exec) evalCall(ctx *evalCtx, x *ECall, want types.Type) Val {
 		m := arg(0, nil)
 		k := arg(1, types.Typ[types.String])
 		return e.mdGet(ctx.st, m.T[0], k.T[0])
+	case "as":
+		// as(x, T): payload of interface value x viewed as concrete type T (use under an 'x is T' guard)
+		v := arg(0, nil)
+		id, ok := x.Args[1].(*EIdent)
+		var tn string
+		if ok {
+			tn = id.Name
+		} else if sel, ok := x.Args[1].(*ESel); ok {
+			tn = exprString(sel)
+		} else if un, ok := x.Args[1].(*EUn); ok {
+			tn = exprString(un)
+		}
+		tn = strings.TrimPrefix(tn, "ptr_")
+		t := e.lookupType(tn)
+		if t == nil {
+			fail("as(): unknown type %q", tn)
+		}
+		if len(v.T) != 2 {
+			fail("as() of a non-interface value")
+		}
+		return e.unbox(ctx.st, v.T[1], t)
+	case "content":
+		v := arg(0, nil)
+		slt, ok := v.Typ.Underlying().(*types.Slice)
+		if !ok {
+			fail("content() of non-slice")
+		}
+		return Val{T: []string{e.contentOf(ctx.st, v, slt.Elem())}, Typ: ghostIntT}
+	case "cat":
+		a, b := arg(0, ghostIntT), arg(1, ghostIntT)
+		return Val{T: []string{app(e.fun("cat", []string{SInt, SInt}, SInt), a.T[0], b.T[0])}, Typ: ghostIntT}
 	case "ite":
 		c := arg(0, boolT)
 		a := arg(1, want)
